@@ -213,6 +213,7 @@ func runC08() {
 	runResume(common.NewRand(c.Seed*1000003 + 8))
 	runTxGraph(common.NewRand(c.Seed*1000003 + 9))
 	c.Stats.Rule = "caller-owned data through every option (implementation only; every object compared, not only the serialisation): (a) frames - programs of the aliasing matrix, random chains, conditionals, P2SH, script-boundary programs and signature programs with a transaction are run with a debugger that keeps the State of every BeforeStep / BeforeExecuteOpcode / AfterStep (the frames from which a resumed run is the rest of the run); execution is resumed from each kept frame (interpreter.WithState) three times over the same caller objects: the frame reads the same after each (all stacks, conditional stacks, parsed scripts with their push data, counters), the three runs end alike and as the uninterrupted run, and show step for step the stacks of the rest of the uninterrupted run (BeforeStep frames also against the model: corr/C08.v KResume); (b) transaction graphs - 300 signature programs whose signatures reach the digest (real keys, original and replay-protected digests) plus junk-signature and signature-free programs against transactions with inputs before AND behind the checked one, the other inputs holding previous outputs (set by the caller as for an extended-format transaction, one script object shared by all, the very object of the checked output's script, recorded by Execute on those inputs), the checked input already holding one (same object, equal, another) or none, the other inputs executed before / after / both: every script object reachable from the transaction (with the spare capacity behind its length), every pointer, value, outpoint and sequence compared before / after every execution, the record being the only change; executing the same input twice ends alike; then: 800 signature-opcode shapes with a transaction context (tested input at index 0..2, 1..4 outputs, all base hash types incl. SINGLE/NONE with and without ANYONECANPAY/FORKID) (implementation only: caller buffers, tx serialisation and the prevout record compared); 240 signature-opcode programs whose signatures reach the digest (real keys; valid signatures over the specified script code and well-formed ones over another digest; CHECKSIG / P2PKH / m-of-n CHECKMULTISIG and the VERIFY forms; bare, behind executed OP_CODESEPARATORs, between the keys, in a P2SH redeem script, with a signature push inside the script; all hash types with/without the FORKID bit and flag) (implementation only: the same caller-buffer predicates - the record on the checked input is the spent output's script, not the script code); zero-length VIEWS (15 ways of making an empty item that still has an address and a capacity: left half of a split at 0, right half of a split at SIZE, OP_PUSHDATA1/2/4 of length 0, their copies, of script bytes and of results) x 65 transformations (the 42 of the matrix, OP_NUM2BIN to 0/1/2/3/4/20 bytes, the view as second operand / size / position / shift count), in the locking script, made in the unlocking and transformed in the locking script, in a P2SH redeem script, plus random chains - values against the model, sharing against the heap model, caller buffers; provenance x transformation matrix: 17 ways of obtaining two stack items backed by the same data (DUP, 2DUP, 3DUP, OVER, 2OVER, PICK, TUCK, IFDUP, both halves of SPLIT, alt-stack round trips, pushes straight from the script bytes, ROT/SWAP/ROLL of duplicates) x 42 value-transforming opcode snippets x 14 twin values x both eras, in the locking script and in the unlocking script; random chains of 2-3 transformations; every ordered pair of the 42 snippets with the first result retained (plain, duplicated, or parked on the alt stack) while the second runs (quick: a third of the pairs per seed plus all hash x hash pairs); P2SH (saved stack shared with the redeem script); runs with a transaction context. Every snapshot of every stack item after every step is compared with the model (in which values cannot alias), the frame property is stated directly on the snapshots, and the caller-held script and transaction buffers are compared byte for byte before/after. distinct = distinct program; non-trivial = at least one step completed"
+	runFlagShapes() // c08_flags.go: flag- and shape-selected handler paths on shared items (round 9)
 }
 
 // emitLive: the sharing structure of the interpreter's own stacks after every step (which items lie in which
